@@ -21,16 +21,33 @@ PROVED here:
       `nullCheck_noDetect` (no detection ⇒ nothing changes);
  (iii) the executable γ-membership used by the validation is the declarative one (`contains_iff`,
       `firstExcluded_none_iff`).
+ (iv) "PI-lite" (files `Data/DataProps/Eval/EvalProps.lean`, imported below): an exact model of
+      `DataDomain<IntervalDomain>` with its `RegisterDomain` implementation (`arithmetics.rs`) and of the
+      register part of `State::eval`, with
+      * `DData.binOp_sound / unOp_sound / cast_sound / subpiece_sound` (+ `_wf`): the P-Code reference result
+        on members is a member of the abstract result, for EVERY identifier valuation ρ (pointer ± offset,
+        pointer − pointer, everything else);
+      * `DData.addBound_sound`: the five bound refinements under γρ (lifted from C04);
+      * `St.eval_sound`: by induction on the expression, registers in γρ ⇒ `Sem.eval σ e ∈ γρ (State::eval e)`;
+      * `St.handleRegisterAssign_sound`: the register part of the `Def::Assign` transfer is a sound edge
+        transfer in the sense of (i);
+      * `DData.contains_iff`, `DData.mem_toAData`: executable γρ = declarative γρ = the γ of the validation.
  Reused, not redone: soundness of the interval bound refinements (`C04.Bounds`:
  `addSignedGreaterEqualBound_sound`, `addSignedLessEqualBound_sound`), on which (ii) rests; the
- interval transfer functions and merges are the subject of C02/C03.
-NOT proved: that the transfers of the real pointer inference (~5000 lines) satisfy the hypotheses of
-(i). That is VALIDATED: the real analysis runs on generated programs and the Lean reference
-interpreter checks `StateMem` at every reached block start and block end (see Driver).
+ interval transfer functions (`C02.binOp_sound`, …) and `Bitvector::bin_op` (`C01.binOp_eq_ref`), on which
+ (iv) rests; merges are the subject of C03.
+NOT proved: that the transfers of the real pointer inference (~5000 lines: abstract objects and memory,
+conditional specialisation of expressions, calls, id renaming, widening) satisfy the hypotheses of (i) —
+only the register part of `Def::Assign` does, by (iv). The rest is VALIDATED: the real analysis runs on
+generated programs and the Lean reference interpreter checks `StateMem` at every reached block start and
+block end (see Driver). (iv) is tied to the real code by two correspondence streams (real
+`DataDomain::bin_op/un_op/cast/subpiece` and real `State::eval` vs the model, structurally).
 -/
 import CweModel.C13.Model
 import CweModel.C04.Bounds
 import CweModel.Base.Fix
+import CweModel.C13.DataProps
+import CweModel.C13.EvalProps
 
 namespace CweModel.C13
 open CweModel CweModel.IR CweModel.Itv
